@@ -5,12 +5,16 @@ import envelope as E
 from common import compare_gen, is_real_finite, signatures, time_limit, CallTimeout
 
 ID = 'C02'
-LEAN_MODULES = ['Dhlldv.Props.C02']
+LEAN_MODULES = ['Dhlldv.Props.C02', 'Dhlldv.Props.C06']
 PROP_MODULES = ['Dhlldv.Props.C02']
 PROVED = ['on E every primitive of the leaf models is applied inside its real domain: Reynolds number (nu != 0, Re > 0), Swamee-Jain (turbulent branch, log argument in (0,1), '
           'squared log != 0, lambda > 0), liquid gradient (> 0), Ruby-Zanke settling velocity (> 0, sqrt base >= 1), hindered-settling exponent beta in (2.34, 4.7] and '
-          'KC > 0.58 > Cvs so the base 1 - Cvs/KC > 0, pseudo-liquid limiting diameter (> 0)']
-HYPOTHESES = ['iterative / derived-concentration paths (LDV loops, Newton loop of the stationary-deposit limit, slip ratio, Cvs_from_Cvt, Cvt_Erhg): in-domain provided every iterate stays '
+          'KC > 0.58 > Cvs so the base 1 - Cvs/KC > 0, pseudo-liquid limiting diameter (> 0)',
+          'fixed-bed force balance on E (C02_fixed_bed): bed half-angle in (0, 2.5) rad, free area / perimeters above the bed / hydraulic diameter positive, velocity above the bed >= line speed, '
+          'its Reynolds number >= 1296, both friction-logarithm arguments in (0, 1), sheet-flow power bases positive, wall / bed / sheet-flow friction factors and the pressure loss positive, '
+          'divisors rhol*g and Rsd*Cvs non-zero',
+          'limit deposit velocity: every iterate of the four loops stays positive for every step budget (C06_pos, shared with C06)']
+HYPOTHESES = ['iterative / derived-concentration paths (Newton loop of the stationary-deposit limit, slip ratio, Cvs_from_Cvt, Cvt_Erhg): in-domain provided every Newton iterate stays '
               'positive, Xi < 1 and the hindered-settling base is clamped at 0 (the repaired heterogeneous.Shr) - searched on the implementation every run']
 MONITORED = ['floating-point overflow / NaN (not expressible on R); full curve generation of slurry objects over their 100 tabulated speeds']
 RULE = ('every public uniform-sand call (head loss, regime, slip ratio, LDV, stationary-deposit limit, Wilson models) on envelope tuples incl. vls = 0.1, coarse grains (d up to 0.25 Dp), '
@@ -104,9 +108,23 @@ def monitor(ctx, extended=False):
                     return
             except Exception as e:   # noqa
                 ctx.violation(f'{name} raised {type(e).__name__}: {e}', {'args': list(a)}, key='raised:' + name)
-    for _ in range(ctx.n(25, 1500) * (2 if extended else 1)):
-        p = E.slurry_params(ctx.rng)
-        if ctx.rng.random() < 0.4:
+    # corners of the envelope for slurry objects first (heaviest / lightest solids, largest / smallest pipe, coarsest admissible grading): quantities derived
+    # inside curve generation (limit deposit velocities, their gradients) are extreme there
+    corners = []
+    for Dp_ in (1.2, 1.0, 0.762, 0.1):
+        for rhos_ in (4.0, 3.5, 2.0):
+            for fl_ in ('fresh', 'salt'):
+                for d50f, r85_ in ((0.25, 2.0), (0.15, 3.0), (0.08, 4.0)):
+                    corners.append(dict(Dp=Dp_, fluid=fl_, rhos=rhos_, Cv=ctx.rng.choice([0.02, 0.175, 0.45]), D50=d50f * Dp_, r15=ctx.rng.choice([1.5, 2.0, 6.0]), r85=r85_))
+    ctx.rng.shuffle(corners)
+    corners = [dict(Dp=1.2, fluid='fresh', rhos=4.0, Cv=0.175, D50=0.25 * 1.2, r15=2.0, r85=2.0),
+               dict(Dp=1.0, fluid='salt', rhos=3.5, Cv=0.02, D50=0.15, r15=2.0, r85=3.0)] + corners
+    n_rand = ctx.n(25, 1500) * (2 if extended else 1)
+    todo = corners[:ctx.n(8, len(corners))] + [None] * n_rand
+    for p in todo:
+        if p is None:
+            p = E.slurry_params(ctx.rng)
+        if p not in corners and ctx.rng.random() < 0.4:
             # coarse gravel gradings
             p['D50'] = min(0.25 * p['Dp'], max(p['D50'], E.loguniform(ctx.rng, 3e-3, 4e-2)))
             p['r85'] = min(p['r85'], 0.5 * p['Dp'] / p['D50'])
@@ -131,15 +149,20 @@ def monitor(ctx, extended=False):
     from props.c12 import gen_case
     for _ in range(ctx.n(60, 3000) * (2 if extended else 1)):
         p, pts, kind, (nu, rhol, dl) = gen_case(ctx.rng)
+        if max(pts.values()) > 0.5 * p['Dp']:
+            continue        # C12 allows D85 beyond the pipe; the envelope of this property (grain sizes up to 0.25 Dp, D85 up to 0.5 Dp) does not
         inp = {'points': {str(k): v for k, v in pts.items()}, 'Dp': p['Dp'], 'fluid': p['fluid'], 'rhos': p['rhos'], 'Cv': p['Cv']}
         for v in (0.1, ctx.rng.uniform(0.5, 3.0), ctx.rng.uniform(3.0, 10.0)):
             for c in (True, False):
                 ctx.count('evaluations')
                 try:
-                    r = F.Erhg_graded(dict(pts), v, p['Dp'], E.EPS, nu, rhol, p['rhos'], p['Cv'], Cvt_eq_Cvs=c, get_dict=(c and v == 0.1))
+                    # the requested number of fractions is part of the public call too (default 10; None / 0 = use the grading as it is; small and large counts)
+                    nf = ctx.rng.choice(['default', 'default', None, 0, 1, 2, 3, 5, 20, True])
+                    kw_nf = {} if nf == 'default' else {'num_fracs': nf}
+                    r = F.Erhg_graded(dict(pts), v, p['Dp'], E.EPS, nu, rhol, p['rhos'], p['Cv'], Cvt_eq_Cvs=c, get_dict=(c and v == 0.1), **kw_nf)
                     if not finite(r):
-                        ctx.violation(f'Erhg_graded on a {len(pts)}-point grading returned a non-finite value {str(r)[:120]}', dict(inp, vls=v, Cvt_eq_Cvs=c), key='graded')
+                        ctx.violation(f'Erhg_graded on a {len(pts)}-point grading returned a non-finite value {str(r)[:120]}', dict(inp, vls=v, Cvt_eq_Cvs=c, num_fracs=repr(nf)), key='graded')
                 except Exception as e:   # noqa
-                    ctx.violation(f'Erhg_graded on a {len(pts)}-point grading raised {type(e).__name__}: {e}', dict(inp, vls=v, Cvt_eq_Cvs=c), key='graded')
+                    ctx.violation(f'Erhg_graded on a {len(pts)}-point grading raised {type(e).__name__}: {e}', dict(inp, vls=v, Cvt_eq_Cvs=c, num_fracs=repr(nf)), key='graded')
         classes.add(('graded', kind.split(':')[0]))
     ctx.stats['distinct_nontrivial'] = len(classes)
